@@ -33,6 +33,10 @@ class weekday(object):
     def __ne__(self, other):
         return not (self == other)
 
+    def __reduce__(self):
+        # __slots__ without __getstate__ cannot be pickled with protocols 0, 1
+        return (self.__class__, (self.weekday, self.n))
+
     def __repr__(self):
         s = ("MO", "TU", "WE", "TH", "FR", "SA", "SU")[self.weekday]
         if not self.n:
